@@ -34,8 +34,11 @@ CFG = dict(
         "one model step; any interleaving of steps is covered; Flush+Sync is one step (the state in between is reachable "
         "through OFlush)",
         "modelled: performPrecommit (tx-log rewind+append, AHT ResetSize/Append with its own sync threshold, cLogBuf), "
-        "sync() phases, OpenWith (commit-log trimming / PreallocFiles binary search, last-tx validation, precommitted "
-        "reload by id/PrevAlh/record check, AHT reset / up-to-date / re-link), ahtree.OpenWith size checks. ABSTRACTED: "
+        "sync() phases (value logs in ANY order, as Go ranges over a map), OpenWith (commit-log trimming / PreallocFiles "
+        "binary search, last-tx validation, precommitted reload by id/PrevAlh/record check AND value check (fix ccd70f3), "
+        "AHT reset to the committed id (fix 2077e08) / up-to-date / re-link), the tree fsynced inside sync() before the "
+        "commit entries (fix b260503; model switch c_ahtsync = Tie.C03.repair_applied = true; the tie observes whether "
+        "the tree fsyncs inside sync(), so the switch must agree with the code), ahtree.OpenWith size checks. ABSTRACTED: "
         "tx record = id|prevAlh|len|body|alh with an opaque body carrying one value extent; H arbitrary 32-byte function; "
         "AHT = one leaf log (payload+digest logs) + commit log. NOT "
         "modelled (falsifier only): chunk rotation, embedded values, external commit allowance, index (tbtree) recovery, "
